@@ -25,7 +25,8 @@
 EXTENDS Naturals, Sequences, TLC, Json
 
 CONSTANTS MaxMsgs,   \* message-kind sequences up to this length; kinds "small" (fits the last block) | "big" (needs a new block)
-          ArmFirst   \* TRUE: the code as fixed; FALSE: poll before arm
+          ArmFirst,  \* TRUE: the code as fixed; FALSE: poll before arm
+          StartWaiting \* TRUE: the consumer is a loop already asleep on an empty queue (the connection's send loop)
 
 MsgSeqs == UNION { [1..k -> {"small", "big"}] : k \in 1..MaxMsgs }
 
@@ -39,8 +40,8 @@ Init ==
     /\ msgs \in MsgSeqs
     /\ blocks = <<0>>            \* one empty block
     /\ token = FALSE
-    /\ pc = First
-    /\ armed = "none"
+    /\ pc = IF StartWaiting THEN "wait" ELSE First
+    /\ armed = IF StartWaiting THEN "chan" ELSE "none"
     /\ got = 0 /\ sent = 0
     /\ sched = <<>>
 
